@@ -3,26 +3,22 @@
 package runtime
 
 import (
-	"encoding/hex"
-
 	"github.com/google/mtail/internal/runtime/vm"
 )
 
 // VerifC14Handle is a read-only view of one entry of Runtime.handles.
 type VerifC14Handle struct {
 	Name string
-	Hash string // hex of vmHandle.contentHash
 	VM   *vm.VM
 }
 
-// VerifC14Handles returns the current program handles (name, content hash, VM
-// identity) under handleMu.RLock.  Used by the C14/C26/C06 replay harness.
+// VerifC14Handles returns the current program handles (name, VM identity) under handleMu.RLock.  Used by the C14/C26/C06 replay harness.
 func (r *Runtime) VerifC14Handles() []VerifC14Handle {
 	r.handleMu.RLock()
 	defer r.handleMu.RUnlock()
 	out := make([]VerifC14Handle, 0, len(r.handles))
 	for name, h := range r.handles {
-		out = append(out, VerifC14Handle{Name: name, Hash: hex.EncodeToString(h.contentHash), VM: h.vm})
+		out = append(out, VerifC14Handle{Name: name, VM: h.vm})
 	}
 	return out
 }
